@@ -16,7 +16,7 @@ class Check(RuntimeCheck):
     prop = 'C02'
     design_ref = 'DESIGN.md §4.1, §5 C02'
     theorems = ['C02_starts_are_prefix_sums', 'C02_kth_response_lookup', 'C02_kth_response', 'C02_once_first',
-                'C02_once_again', 'C02_respond_monotone', 'C02_single_use_iff', 'C02_history_kth_match', 'C02_source_quantify', 'C02_source_then', 'C02_source_apply_quant', 'C02_source_stored']
+                'C02_once_again', 'C02_respond_monotone', 'C02_single_use_iff', 'C02_history_kth_match', 'C02_source_quantify', 'C02_source_then', 'C02_source_apply_quant', 'C02_source_stored', 'C02_source_find_responder']
 
     def rule(self):
         return ("exhaustive: every quantifier chain with 1..3 segments (thorough: 4), counts 0..2 (thorough 0..3), last "
